@@ -14,7 +14,7 @@ import (
 func init() {
 	Registry["C03"] = c03
 	Metas["C03"] = Meta{Level: "other", NeedCG: true, Technique: "static analysis: call-graph who-may-call, finite-domain decision table of the signer extracted from SSA, dominance / edge-dominance of persist-before-release",
-		Explain: "Static analysis of the signer. Decided: (R1) who may call a private-key Sign in node code; (R2) the height/round/step decision table of signBytesHRS, extracted exhaustively over the finite domain of orderings (3x3x3 x nil-ness x equality = 216 abstract states) and compared with the specification table; (R3) on every path of signBytesHRS that returns a fresh signature the five watermark fields are stored, save() is called, and its error is tested before the signature is released; save() propagates the atomic write's error; WriteFileAtomic writes the target only by rename after a successful temp write; (R4) a refused signature reaches neither a no-return call nor the internal message queue; (R5) the check-sign-persist sequence runs under the signer's mutex without releasing it, and a failed save restores all five watermark fields to their pre-update values. NOT decided: durability under power loss (no fsync), the file system's rename semantics, and the behaviour over actual histories — this check decides these structural clauses and not the behaviour.",
+		Explain: "Static analysis of the signer. Decided: (R1) who may call a private-key Sign in node code; (R2) the height/round/step decision table of signBytesHRS, extracted exhaustively over the finite domain of orderings (3x3x3 x nil-ness x equality = 216 abstract states) and compared with the specification table; (R3) on every path of signBytesHRS that returns a fresh signature the five watermark fields are stored, save() is called, and its error is tested before the signature is released; save() propagates the atomic write's error; WriteFileAtomic writes the target only by rename after a successful temp write; (R4) a refused signature reaches neither a no-return call nor the internal message queue; (R5) the check-sign-persist sequence runs under the signer's mutex without releasing it, and a failed save restores all five watermark fields to their pre-update values. (R3 also) after the rename WriteFileAtomic hands back the rename's own error. NOT decided: durability under power loss (no fsync), the file system's rename semantics, and the behaviour over actual histories — this check decides these structural clauses and not the behaviour.",
 		Assume: []string{"process-crash model: rename(2) after a completed write is atomic", "go/ssa faithfully represents the source", "lexicographic H/R/S comparison uses only the comparisons present in signBytesHRS (any other branch condition forks both ways)"},
 	}
 }
